@@ -665,7 +665,13 @@ func c18After(rc *RunCtx, res *simrt.Result) {
 		viol("observer-not-notified", "the file changed but the registered observer was never notified")
 	} else if len(d.Notifs) > 0 {
 		last := d.Notifs[len(d.Notifs)-1]
-		for k, v := range finalVal {
+		var fkeys []string
+		for k := range finalVal {
+			fkeys = append(fkeys, k)
+		}
+		sort.Strings(fkeys)
+		for _, k := range fkeys {
+			v := finalVal[k]
 			isBase := false
 			for _, bk := range c18Keys {
 				if bk == k {
